@@ -3,6 +3,7 @@
 use super::super::*;
 use crate::slice_file::Span;
 use crate::utils::ptr_util::WeakPtr;
+use std::collections::HashMap;
 
 #[derive(Debug)]
 pub struct Interface {
@@ -50,14 +51,29 @@ impl Interface {
     }
 
     pub fn all_base_interfaces(&self) -> Vec<&Interface> {
-        let mut all_bases = self.base_interfaces();
-        all_bases.extend(self.bases.iter().flat_map(|type_ref| type_ref.all_base_interfaces()));
+        // Computes the bases of `interface`: its direct bases, followed by all the bases of each of them, without
+        // duplicates. Results are cached, so that an interface which is inherited along several paths (diamond
+        // inheritance) is only computed once, instead of once per path.
+        fn compute<'a>(interface: &'a Interface, cache: &mut HashMap<String, Vec<&'a Interface>>) -> Vec<&'a Interface> {
+            let identifier = interface.parser_scoped_identifier();
+            if let Some(cached_bases) = cache.get(&identifier) {
+                return cached_bases.clone();
+            }
 
-        // Filter duplicates created by diamond inheritance in-place.
-        let mut seen_identifiers = std::collections::HashSet::new();
-        all_bases.retain(|base| seen_identifiers.insert(base.parser_scoped_identifier()));
+            let mut all_bases = interface.base_interfaces();
+            for base in interface.base_interfaces() {
+                all_bases.extend(compute(base, cache));
+            }
 
-        all_bases
+            // Filter duplicates created by diamond inheritance in-place.
+            let mut seen_identifiers = std::collections::HashSet::new();
+            all_bases.retain(|base| seen_identifiers.insert(base.parser_scoped_identifier()));
+
+            cache.insert(identifier, all_bases.clone());
+            all_bases
+        }
+
+        compute(self, &mut HashMap::new())
     }
 }
 
